@@ -20,7 +20,16 @@ def vlq (n : Nat) : Bytes := vlqHi n (n / 128) ++ [n % 128]
 def be (width : Nat) (n : Nat) : Bytes :=
   (List.range width).reverse.map fun i => (n / 256 ^ i) % 256
 
-def strBytes (s : String) : Bytes := s.toUTF8.toList.map (·.toNat)
+/-- UTF-8 encoding of one code point (kernel-reducible; agrees with `String.toUTF8`, checked by the tie) -/
+def utf8Char (c : Char) : Bytes :=
+  let n := c.toNat
+  if n < 0x80 then [n]
+  else if n < 0x800 then [0xC0 + n / 64, 0x80 + n % 64]
+  else if n < 0x10000 then [0xE0 + n / 4096, 0x80 + n / 64 % 64, 0x80 + n % 64]
+  else [0xF0 + n / 262144, 0x80 + n / 4096 % 64, 0x80 + n / 64 % 64, 0x80 + n % 64]
+
+/-- the bytes of a Go string holding this text -/
+def strBytes (s : String) : Bytes := s.toList.flatMap utf8Char
 
 def metaMsg (typ : Nat) (data : Bytes) : Bytes := [0xFF, typ] ++ vlq data.length ++ data
 
